@@ -5,5 +5,5 @@ S=/verif/seeded/$1; P=$2; T=${3:-quick}
 cd /repo && git diff --quiet || { echo "repo dirty"; exit 2; }
 git -C /repo apply --3way $S/patch.diff 2>/dev/null || git -C /repo apply $S/patch.diff || { echo "PATCH DOES NOT APPLY"; exit 3; }
 cd /verif && ./check $P --tier $T > /tmp/seed_$1_$P.log 2>&1; rc=$?
-git -C /repo checkout -- . ; git -C /repo reset -q
+git -C /repo checkout HEAD -- .
 echo "seed=$1 prop=$P rc=$rc"; grep -E "^(VIOLATION|INCONCLUSIVE|MODEL-DISC|CHECK)" /tmp/seed_$1_$P.log | cut -c1-400
